@@ -22,6 +22,8 @@ pub struct C15;
 #[derive(Clone, Debug)]
 struct Occ {
   binder: bool,
+  /// binder written in the shorthand form `{ f }` of a struct pattern (rename must expand it to `f as new`)
+  shorthand: bool,
   name: String,
   loc: Location,
   member: usize,
@@ -75,7 +77,7 @@ fn occurrences(nodes: &[Node]) -> Vec<Occ> {
     if name == "this" || name == "_" {
       continue;
     }
-    out.push(Occ { binder, name, loc: n.loc, member: member_of(i) });
+    out.push(Occ { binder, shorthand: n.kind == "pat-field-name", name, loc: n.loc, member: member_of(i) });
   }
   out.sort_by_key(|o| (o.loc.start.0, o.loc.start.1));
   out
@@ -215,12 +217,69 @@ fn or_pattern_host(t: &mut Tape) -> (String, String) {
   (u, r)
 }
 
+/// (unique-name text, queried text): match arms over an enum whose variants carry a struct, with
+/// or-patterns whose alternatives destructure the struct by field name; the queried text uses the
+/// shorthand form `{ x, y }` wherever the variable is called like the field, the unique text always
+/// writes `x as v<arm>n<i>`
+fn struct_or_pattern_host(t: &mut Tape) -> (String, String) {
+  let head = "class P(val x: int, val y: int) {\n  function mk(a: int, b: int): P = P.init(a, b)\n}\n\nclass Sh(Ci(P), Sq(P), No) {\n  function mk(): Sh = Sh.No()\n}\n\nclass Main {\n  function f(s: Sh, k: int): int =\n    match s {\n";
+  let mut texts = [head.to_string(), head.to_string()];
+  let arms = 1 + t.choose(3);
+  for arm in 0..arms {
+    let nvars = t.choose(3);
+    let alts = 1 + t.choose(2);
+    let first_ci = t.bool(1, 2);
+    let mut pats = [vec![], vec![]];
+    for alt in 0..alts {
+      let tag = if (alt == 0) == first_ci { "Ci" } else { "Sq" };
+      // which variable (if any) each field binds in this alternative
+      let swapped = nvars > 0 && t.bool(1, 4);
+      let var_of_field = |fi: usize| -> Option<usize> {
+        let v = if swapped { 1 - fi } else { fi };
+        if v < nvars { Some(v) } else { None }
+      };
+      let fields_rev = t.bool(1, 3);
+      let order: [usize; 2] = if fields_rev { [1, 0] } else { [0, 1] };
+      let mut elems = [vec![], vec![]];
+      for fi in order {
+        let field = ["x", "y"][fi];
+        match var_of_field(fi) {
+          None => {
+            elems[0].push(format!("{field} as _"));
+            elems[1].push(format!("{field} as _"));
+          }
+          Some(v) => {
+            let reused = ["x", "y"][v];
+            // `x as x` is normalised to `x` by rename (not by the formatter), so the host never writes it
+            let shorthand = reused == field;
+            elems[0].push(format!("{field} as v{arm}n{v}"));
+            elems[1].push(if shorthand { field.to_string() } else { format!("{field} as {reused}") });
+          }
+        }
+      }
+      for w in 0..2 {
+        pats[w].push(format!("{tag}({{ {} }})", elems[w].join(", ")));
+      }
+    }
+    for w in 0..2 {
+      let names: Vec<String> = (0..nvars).map(|v| if w == 0 { format!("v{arm}n{v}") } else { ["x", "y"][v].to_string() }).collect();
+      let body = if nvars == 0 { "k".to_string() } else { format!("{} + k", names.join(" + ")) };
+      texts[w].push_str(&format!("      {} -> {body},\n", pats[w].join(" | ")));
+    }
+  }
+  for text in texts.iter_mut() {
+    text.push_str("      _ -> 0,\n    }\n\n  function main(): unit = {\n    Process.println(Str.fromInt(Main.f(Sh.Ci(P.mk(3, 4)), 1)));\n    Process.println(Str.fromInt(Main.f(Sh.Sq(P.mk(5, 6)), 2)));\n    Process.println(Str.fromInt(Main.f(Sh.mk(), 7)));\n  }\n}\n");
+  }
+  let [u, r] = texts;
+  (u, r)
+}
+
 impl Prop for C15 {
   fn id(&self) -> &'static str {
     "C15"
   }
   fn rule(&self) -> String {
-    "hosts: (1 in 4) a member with 2-4 match arms over Pair<E, E> whose patterns are nested or-patterns binding the same variables in every alternative and in different tuple components (`(A(x) | B(x), _) | (_, B(x))`), the same names re-used in every arm; (3 in 4) G1 accepted programs (parameters, let, tuple / struct (`as` and shorthand) / variant / or-patterns, if-let, match arms, lambda parameters, variables captured by nested lambdas) whose local names are unique per member; the queried document is that program or (1 in 2) the same program with every binder renamed after its scope level, so that sibling scopes reuse the same names and nested scopes never shadow; ground truth: occurrence i of the queried document resolves to the binder named by occurrence i of the unique-name version; at up to 16 tape-chosen identifier occurrences (first or last character): go-to-definition must land on a binding occurrence of the right variable, find-references must return all uses plus at least one binding occurrence of it and nothing else; for up to 3 of them rename to a fresh name must yield a document that parses, has the same (no) diagnostics, changes exactly the variable's occurrences in the sequence of lower-case identifiers, runs identically under the reference interpreter, and renaming back must restore the formatted original; non-trivial = the member containing a queried occurrence has >=3 distinct variables, and the document has a lambda or a pattern binder; distinct = hash of the document and the picks".into()
+    "hosts: (1 in 8) a member with 2-4 match arms over Pair<E, E> whose patterns are nested or-patterns binding the same variables in every alternative and in different tuple components (`(A(x) | B(x), _) | (_, B(x))`), the same names re-used in every arm; (1 in 8) match arms over an enum with struct payloads whose or-pattern alternatives destructure the struct by field name, in shorthand form (`Ci({ x, y }) | Sq({ y, x as _ })`) wherever the variable is called like the field, fields in either order and bound to either variable; (3 in 4) G1 accepted programs (parameters, let, tuple / struct (`as` and shorthand) / variant / or-patterns, if-let, match arms, lambda parameters, variables captured by nested lambdas) whose local names are unique per member; the queried document is that program or (1 in 2) the same program with every binder renamed after its scope level, so that sibling scopes reuse the same names and nested scopes never shadow; ground truth: occurrence i of the queried document resolves to the binder named by occurrence i of the unique-name version; at up to 16 tape-chosen identifier occurrences (first or last character): go-to-definition must land on a binding occurrence of the right variable, find-references must return all uses plus at least one binding occurrence of it and nothing else; for up to 3 of them rename to a fresh name must yield a document that parses, has the same (no) diagnostics, changes exactly the variable's occurrences in the sequence of lower-case identifiers, runs identically under the reference interpreter, and renaming back must restore the formatted original; non-trivial = the member containing a queried occurrence has >=3 distinct variables, and the document has a lambda or a pattern binder; distinct = hash of the document and the picks".into()
   }
   fn assumptions(&self) -> Vec<String> {
     vec![
@@ -238,7 +297,7 @@ impl Prop for C15 {
   }
   fn generate(&self, t: &mut Tape, tier: Tier) -> Value {
     if t.bool(1, 4) {
-      let (u, r) = or_pattern_host(t);
+      let (u, r) = if t.bool(1, 2) { or_pattern_host(t) } else { struct_or_pattern_host(t) };
       let picks: Vec<u32> = (0..16).map(|_| t.raw()).collect();
       let m = |x: &str| vec![json!({"name": ["M"], "text": x})];
       return json!({"unique": m(&u), "modules": m(&r), "entry": ["M"], "picks": picks, "reused": true, "features": ["or-pattern-host"]});
@@ -391,8 +450,24 @@ impl Prop for C15 {
           all_lower[all_lower.len() - a.len()..].to_vec()
         };
         let expect_changed: BTreeSet<usize> = class.iter().filter_map(|j| lower_positions.iter().position(|p| *p == (occ[*j].loc.start.0, occ[*j].loc.start.1))).collect();
+        // a shorthand binder `{ f }` must become `{ f as fresh }`: the field name stays and the new name follows it
+        let shorthand_at: BTreeSet<usize> = class.iter().filter(|j| occ[**j].shorthand).filter_map(|j| lower_positions.iter().position(|p| *p == (occ[*j].loc.start.0, occ[*j].loc.start.1))).collect();
+        let mut expected_seq: Vec<String> = vec![];
+        for (k, id) in a.iter().enumerate() {
+          if shorthand_at.contains(&k) {
+            expected_seq.push(id.clone());
+            expected_seq.push(fresh.clone());
+          } else if expect_changed.contains(&k) {
+            expected_seq.push(fresh.clone());
+          } else {
+            expected_seq.push(id.clone());
+          }
+        }
+        if !shorthand_at.is_empty() {
+          out.label("rename:expands-shorthand-struct-pattern");
+        }
         let changed: BTreeSet<usize> = (0..a.len().min(b.len())).filter(|k| a[*k] != b[*k]).collect();
-        if a.len() != b.len() || changed != expect_changed || changed.iter().any(|k| b[*k] != fresh) {
+        if b != expected_seq {
           out.fail("rename/wrong-occurrences", ctx(&format!("renaming to `{fresh}` changed identifier occurrences {:?} (to {:?}), expected {:?}\n--- renamed document ---\n{renamed}", changed, changed.iter().map(|k| b.get(*k)).collect::<Vec<_>>(), expect_changed)));
           return out;
         }
